@@ -18,6 +18,8 @@
 //                                     joins, saveLog(file, procname), parses the file with the strict
 //                                     JSON parser below, prints the canonical per-thread event lists
 //   program tokens: B.<name>.<cat|->  E  M.<name>.<cat|->  C.<name>.<value>  N.<threadname>
+//                   Z                 the thread sleeps 150 us (not an API call; makes begin/end
+//                                     intervals long enough for the derived cpuUtilization counters)
 //                   *<n>[ ... ]       repeat group (not nested)
 //   The tracing state is global (static recorder, thread_local list pointers, no reset), so every
 //   `save` runs in a forked child; the parent only relays the child's observation line.
@@ -27,6 +29,7 @@
 #include "common.h"
 
 #include <cctype>
+#include <chrono>
 #include <condition_variable>
 #include <cstdint>
 #include <cstring>
@@ -428,6 +431,7 @@ static bool parseEvent(const std::string &t, Ev &e)
   }
   e = Ev{0, nullptr, nullptr, 0};
   if (f.size() == 1 && f[0] == "E") { e.kind = 'E'; return true; }
+  if (f.size() == 1 && f[0] == "Z") { e.kind = 'Z'; return true; }
   if (f.size() == 3 && (f[0] == "B" || f[0] == "M")) {
     e.kind = f[0][0];
     e.name = intern(f[1]);
@@ -565,6 +569,7 @@ static std::string runTraceChild(const std::string &proc, bool &retry)
         case 'M': tracing::setMarker(e.name, e.cat); break;
         case 'C': tracing::setCounter(e.name, e.value); break;
         case 'N': tracing::setThreadName(e.name); break;
+        case 'Z': std::this_thread::sleep_for(std::chrono::microseconds(150)); break;
         }
       }
       bar.wait();  // nobody exits (and frees its thread id) before everybody is done
